@@ -462,6 +462,28 @@ func C11(r *vf.Run) {
 				if n%4096 == 0 || n == total {
 					k = 512
 				}
+				if n%500 == 250 {
+					// a caller that spells the range as (start, start+size): that end is not the last address
+					// of a 16-byte block, the call is refused and must leave the map alone - in particular the
+					// block that begins at "end", which may be the first block of a ROM or WRAM window
+					st := []uint32{0x006000, 0x3F6000, 0x806000, 0x7DF000, 0x002000 - 0x10}[g.Intn(5)]
+					size := []uint32{0x2000, 0x2000, 0x2000, 0x1000, 0x10}[g.Intn(5)]
+					if st == 0x7DF000 {
+						size = 0x1000
+					}
+					_ = h.s.Bus.Attach(&fakeMem{id: -n}, "cart-ram", st, st+size)
+					cells["long:attach-with-exclusive-end"]++
+					// look right behind the range
+					a := st + size
+					if p, err := lorom.BusAddressToPak(a); err == nil {
+						if cls, live, _, idx, ok := h.cell(p); ok {
+							if v, sv := busRead(h.s, a); sv && v != live[idx] {
+								r.Fail("long-lived-read-"+cls, fmt.Sprintf("after a refused Attach($%06x,$%06x): EaRead($%06x)=%02x but %s[$%x]=%02x", st, st+size, a, v, cls, idx, live[idx]), nil)
+								break
+							}
+						}
+					}
+				}
 				if n%9000 == 2000 {
 					// a copy of the bus taken by value (a Bus is a value; a debugger or a save-state keeps one)
 					// is re-wired over the console's own windows: the System's bus is not the copy
